@@ -114,7 +114,8 @@ theorem not_hb_of_no_own_acquire {es : List XEv} {i j : Nat} {e₁ e₂ : XEv} (
 The object is the message a caller hands to `Value.Set`; its creator (goroutine 1) is the writing goroutine.
 `lentW`: the writes the owner's side makes into the message while the call is open (`FieldUpdater.Merge`
 filtering the update in place, a delta `InterceptBefore`); `lentR`: a goroutine the library started reading
-it (the alarm formatting `%v`).  Both rows are lock-free and live — what `lent.go` emits. -/
+it (the alarm formatting `%v`).  Both rows are lock-free and live — what `lent.go` emits (it also gives the
+owner's row a single-goroutine role, so that the owner's writes are ordered with each other; not needed here). -/
 def lentW : Access := ⟨0, .W, 1, [], .live, 0, [], []⟩
 def lentR : Access := ⟨0, .R, 2, [], .live, 0, [], []⟩
 
